@@ -140,6 +140,30 @@ def run(ctx):
             if model_restart != got_restart or (not model_restart) != got_cont:
                 ctx.mismatch('stream positions read by the offsets draw', tag, {'restart': got_restart, 'continue': got_cont},
                              {'restart': model_restart})
+    # SIZE forms: the feature map is a row-by-row formula, so a big batch (many samples x many components, beyond any block
+    # size) must give, for every row, exactly what that row gives alone - checked against the direct formula
+    for D, n_rows in ((2048, 2100), (100, 42500)) if ctx.tier == 'quick' else ((2048, 2100), (100, 42500), (4096, 1500), (512, 9000)):
+        for method in ('weight_only', 'weight_offset'):
+            rs = np.random.RandomState(ctx.rng.randint(0, 2 ** 31 - 1))
+            nf = ctx.rng.randint(1, 3)
+            Xb = rs.uniform(-1.5, 1.5, (n_rows, nf))
+            shape = ctx.rng.choice([0.5, 1.0, 2.0])
+            est = pykoop.RandomFourierKernelApprox(n_components=D, random_state=np.random.RandomState(ctx.rng.randint(0, 999)),
+                                                   method=method, shape=shape, kernel_or_ft='gaussian').fit(Xb)
+            Zb = est.transform(Xb)
+            idx = sorted({0, 1, n_rows // 2, n_rows - 2, n_rows - 1} | {ctx.rng.randrange(n_rows) for _ in range(5)})
+            prod = np.sqrt(2 * shape) * Xb[idx] @ est.random_weights_
+            want = (np.hstack((np.cos(prod), np.sin(prod))) if method == 'weight_only'
+                    else np.sqrt(2) * np.cos(prod + est.random_offsets_)) / np.sqrt(D)
+            tag = {'size_form': f'{n_rows} samples x {D} components', 'method': method, 'shape': shape}
+            ctx.count('size form')
+            ctx.record_case(tag, True)
+            if Zb.shape[0] != n_rows or not np.allclose(Zb[idx], want, rtol=1e-10, atol=1e-13):
+                bad = [i for i, (a, b) in zip(idx, zip(Zb[idx], want)) if not np.allclose(a, b, rtol=1e-10, atol=1e-13)]
+                ctx.fail(f'rows {bad[:5]} of a large batch ({n_rows} samples x {D} components, {method}) are not the feature map of '
+                         f'those samples (row 0: norm {float(np.linalg.norm(Zb[0])):.6g}, formula {float(np.linalg.norm(want[0])):.6g})',
+                         tag, {'method': method, 'size': 'large'})
+            del Zb
     # layout of the lifting function
     for i in range(ctx.n(20, 200)):
         rng = ctx.rng
